@@ -26,6 +26,27 @@ CLAIMS = {
         "technique": "value-flow graph of compute() + polynomial normal form of the integrand, truth-table predicates "
                      "over polynomial-keyed comparison atoms, length-class typing",
     },
+    "C04": {
+        "text": "Decides the structure that makes the tau-energy sampler an inverse transform usable with any mix of "
+                "angles: every masked sampler call passes its per-event operands (including explicit random numbers) "
+                "selected with the destination's mask; the three angle masks cover all events and are disjoint as "
+                "required, with the table's first beta node / the float32-eps constant as clamps; no table look-up "
+                "disables its bounds check; interpolation coordinates follow the table's axis roles; the result is "
+                "z*10**log_e_nu; the sampler returns the iterator's allocated operand; the row-wise inversion has "
+                "complementary bracket masks, paired (x0,y0)/(x1,y1) and the linear formula. It does NOT decide "
+                "F(z)=u numerically, monotonicity in u or the range of z.",
+        "technique": "value-flow graph + length-class typing of masks, truth-table partition coverage, dependence "
+                     "roles of interpolation coordinates, polynomial normal form",
+    },
+    "C05": {
+        "text": "Decides: interpolation is over log10(table), every stored value is log-domain and the return is "
+                "10**array; the two floors are the same float32-eps constant; the angle masks cover all events and low "
+                "angles use the first beta node; the look-up keeps its bounds check; point order follows the table "
+                "axes; history independence as an effect property - the only write to instance state in a call is the "
+                "idempotent clamp X[X<=0]=k (k>0) and every other read of the table goes through it. It does NOT "
+                "decide node reproduction or the convexity bound (scipy on values).",
+        "technique": "value-flow graph + effect/alias analysis relative to the entry point, truth-table predicates",
+    },
 }
 
 NOT_APPLICABLE = {
@@ -33,6 +54,6 @@ NOT_APPLICABLE = {
            "double-precision evaluation quantifies over runtime values; no sound static argument in reach bounds "
            "float32 rounding through 2(1-cos t) at t~1e-4, so static analysis cannot address it here",
 }
-for _p in ["C02", "C04", "C05", "C07", "C08", "C09", "C10", "C11", "C12", "C13", "C14", "C15", "C16",
+for _p in ["C02", "C07", "C08", "C09", "C10", "C11", "C12", "C13", "C14", "C15", "C16",
            "C17", "C18", "C19", "C20"]:
     NOT_APPLICABLE[_p] = PENDING
